@@ -33,6 +33,8 @@ type evJ struct {
 	NoSeq     bool   `json:"noseq,omitempty"`     // data: seq attribute absent
 	N         int    `json:"n,omitempty"`         // read: buffer size
 	Max       int    `json:"max,omitempty"`       // setmax
+	H         int    `json:"h,omitempty"`         // read | setmax | write | closel: which connection (1-based order of creation in this script); 0: the latest one created under SID
+	Reopen    bool   `json:"reopen,omitempty"`    // closel: while Close waits for the peer's answer the peer opens a new stream under the same sid
 }
 
 type recvCase struct {
@@ -50,6 +52,16 @@ type refConn struct {
 	exists bool // the application holds a connection
 	iq     bool // data packets travel in iqs (and can be refused)
 	werr   bool // a packet of the local writer was refused: the error sticks
+	gen    int  // how many streams were created under this sid before this one
+}
+
+// hnd is one connection the application holds: session identifiers may be
+// reused, so application calls go by handle, packets go by sid (ref.conns maps
+// a sid to the newest stream created under it).
+type hnd struct {
+	conn *ibb.Conn
+	rc   *refConn
+	sid  string
 }
 
 type refHandler struct{ conns map[string]*refConn }
@@ -140,7 +152,38 @@ func (x *runner) runReceiver(c recvCase, origin string) bool {
 	// sids are made unique per run so that one rig can serve many scripts
 	prefix := x.sid() + "-"
 	ref := &refHandler{conns: map[string]*refConn{}}
-	conns := map[string]*ibb.Conn{}
+	classes := []string{"receiver/origin/" + origin}
+	var handles []*hnd
+	newHandle := func(conn *ibb.Conn, sid string, rc *refConn) {
+		if old := ref.conns[sid]; old != nil && old.exists {
+			rc.gen = old.gen + 1
+			classes = append(classes, "receiver/sid-reused")
+		}
+		ref.conns[sid] = rc
+		handles = append(handles, &hnd{conn: conn, rc: rc, sid: sid})
+	}
+	pick := func(e evJ, sid string) *hnd {
+		if e.H > 0 {
+			if e.H <= len(handles) {
+				return handles[e.H-1]
+			}
+			return nil
+		}
+		for j := len(handles) - 1; j >= 0; j-- {
+			if handles[j].sid == sid {
+				return handles[j]
+			}
+		}
+		return nil
+	}
+	idOf := func(h *hnd) int {
+		for j, x := range handles {
+			if x == h {
+				return j
+			}
+		}
+		return -1
+	}
 	var evTerms, obsTerms []string
 	modelled := true
 	accepted, refused, closes := 0, 0, 0
@@ -150,7 +193,6 @@ func (x *runner) runReceiver(c recvCase, origin string) bool {
 		x.dropRig()
 		return false
 	}
-	classes := []string{"receiver/origin/" + origin}
 
 	for i, e := range c.Events {
 		sid := prefix + e.SID
@@ -183,11 +225,7 @@ func (x *runner) runReceiver(c recvCase, origin string) bool {
 				fail("C15/open/accepted-but-failed", fmt.Sprintf("event %d: OpenIQ fails although the peer accepted: %v", i, err))
 			}
 			if conn != nil {
-				conns[sid] = conn
-			}
-			if accept {
-				rc := ref.get(sid)
-				*rc = refConn{bs: effBS(e.BS), max: ibb.MaxBufferSize, open: true, exists: true, iq: true}
+				newHandle(conn, sid, &refConn{bs: effBS(e.BS), max: ibb.MaxBufferSize, open: accept, exists: true, iq: true})
 			}
 			evTerms = append(evTerms, fmt.Sprintf("EOpenLocal %s %s %s", coqSid(sid), coqN(e.BS), hx.CoqBool(accept)))
 			obsTerms = append(obsTerms, "OOpen "+hx.CoqBool(ok))
@@ -226,7 +264,7 @@ func (x *runner) runReceiver(c recvCase, origin string) bool {
 					fail("C15/open/malformed-attribute:accepted", fmt.Sprintf("event %d: an open request with block-size=%q is accepted", i, e.BSText))
 					select {
 					case conn := <-r.accepted:
-						conns[sid] = conn
+						newHandle(conn, sid, &refConn{bs: 8, max: ibb.MaxBufferSize, open: true, exists: true, iq: true})
 					case <-timeAfter(watchdog):
 					}
 				}
@@ -237,12 +275,10 @@ func (x *runner) runReceiver(c recvCase, origin string) bool {
 				obs = "OReply RAck"
 				select {
 				case conn := <-r.accepted:
-					conns[sid] = conn
+					newHandle(conn, sid, &refConn{bs: effBS(e.BS), max: ibb.MaxBufferSize, open: true, exists: true, iq: e.Stanza != "message"})
 				case <-timeAfter(watchdog):
 					return abort("C15/open/accept-missing", "an accepted open request never reaches Accept")
 				}
-				rc := ref.get(sid)
-				*rc = refConn{bs: effBS(e.BS), max: ibb.MaxBufferSize, open: true, exists: true, iq: e.Stanza != "message"}
 				if !e.Listening {
 					fail("C15/open/accepted-without-listener", fmt.Sprintf("event %d: an open request for an address nobody listens on is accepted", i))
 				}
@@ -278,7 +314,7 @@ func (x *runner) runReceiver(c recvCase, origin string) bool {
 				w, got = r.peer.replyTo(id, from, watchdog)
 			} else {
 				if r.sync() {
-					for _, l := range r.peer.snapshot()[from:] {
+					for _, l := range r.peer.snapshotFrom(from) {
 						if l.Name == "message" && l.ID == id && l.Type == "error" {
 							w, got = l, true
 						}
@@ -335,14 +371,16 @@ func (x *runner) runReceiver(c recvCase, origin string) bool {
 			case cond == "" && len(must) > 0:
 				which := firstKey(must)
 				fail("C15/payload/"+which+":not-refused", fmt.Sprintf("event %d: a packet that must be refused with %s is accepted", i, which))
+			case cond != "" && clean && cond == "item-not-found" && ref.conns[sid] != nil && ref.conns[sid].gen > 0:
+				fail("C15/reuse/live-stream-unregistered", fmt.Sprintf("event %d: a valid packet for the live stream %q (the %d. stream under this session id) is refused with item-not-found: closing an older connection with the same session id has removed the new stream from the handler", i, e.SID, ref.conns[sid].gen+1))
 			case cond != "" && clean:
 				fail("C15/payload/good-packet-refused", fmt.Sprintf("event %d: a valid in-sequence packet is refused with %s", i, cond))
 			case cond != "" && !must[cond] && !may[cond]:
 				fail("C15/payload/wrong-condition", fmt.Sprintf("event %d: refused with %s, applicable: %v", i, cond, keys(must, may)))
 			}
 			if cond == "" {
-				rc := ref.get(sid)
-				if len(must) == 0 {
+				rc := ref.conns[sid]
+				if len(must) == 0 && rc != nil {
 					rc.buf = append(rc.buf, decoded...)
 					rc.seq = (rc.seq + 1) % 65536
 				}
@@ -371,11 +409,11 @@ func (x *runner) runReceiver(c recvCase, origin string) bool {
 			classes = append(classes, "receiver/data/"+cl)
 
 		case "read":
-			conn := conns[sid]
-			rc := ref.conns[sid]
-			if conn == nil || rc == nil || e.N <= 0 {
+			hd := pick(e, sid)
+			if hd == nil || hd.conn == nil || e.N <= 0 {
 				continue
 			}
+			conn, rc := hd.conn, hd.rc
 			if len(rc.buf) == 0 && rc.open {
 				continue // would block by the reference semantics: not issued
 			}
@@ -410,31 +448,31 @@ func (x *runner) runReceiver(c recvCase, origin string) bool {
 			} else {
 				rc.buf = nil
 			}
-			evTerms = append(evTerms, fmt.Sprintf("ERead %s %s", coqSid(sid), coqBigNat(e.N)))
+			evTerms = append(evTerms, fmt.Sprintf("ERead %s %s", hx.CoqNat(idOf(hd)), coqBigNat(e.N)))
 			obsTerms = append(obsTerms, fmt.Sprintf("ORead %s %s", hx.CoqBytes(buf[:n]), hx.CoqBool(eof)))
 			classes = append(classes, "receiver/read")
 
 		case "setmax":
-			conn := conns[sid]
-			rc := ref.conns[sid]
-			if conn == nil || rc == nil {
+			hd := pick(e, sid)
+			if hd == nil || hd.conn == nil {
 				continue
 			}
+			conn, rc := hd.conn, hd.rc
 			conn.SetReadBuffer(e.Max)
 			rc.max = e.Max
 			if e.Max > 0 && e.Max < rc.bs {
 				rc.max = rc.bs
 			}
-			evTerms = append(evTerms, fmt.Sprintf("ESetMax %s %s", coqSid(sid), coqZ(e.Max)))
+			evTerms = append(evTerms, fmt.Sprintf("ESetMax %s %s", hx.CoqNat(idOf(hd)), coqZ(e.Max)))
 			obsTerms = append(obsTerms, "ONone")
 			classes = append(classes, "receiver/setmax")
 
 		case "write":
-			conn := conns[sid]
-			rc := ref.conns[sid]
-			if conn == nil || rc == nil || !rc.exists {
+			hd := pick(e, sid)
+			if hd == nil || hd.conn == nil {
 				continue
 			}
+			conn, rc := hd.conn, hd.rc
 			accept := e.Accept || !rc.iq // a message carrier has no acknowledgements: nothing can be refused
 			r.peer.setAuto(func(w wstanza) string {
 				if w.Name == "iq" && w.Type == "set" && w.Child == "data" && w.SID == sid && !accept {
@@ -466,7 +504,7 @@ func (x *runner) runReceiver(c recvCase, origin string) bool {
 			if rc.open && !rc.werr && !accept {
 				rc.werr = true
 			}
-			evTerms = append(evTerms, fmt.Sprintf("EWrite %s %s", coqSid(sid), hx.CoqBool(accept)))
+			evTerms = append(evTerms, fmt.Sprintf("EWrite %s %s", hx.CoqNat(idOf(hd)), hx.CoqBool(accept)))
 			obsTerms = append(obsTerms, "OWrite "+hx.CoqBool(ok))
 			classes = append(classes, "receiver/write/"+map[bool]string{true: "acked", false: "refused"}[accept])
 
@@ -508,38 +546,81 @@ func (x *runner) runReceiver(c recvCase, origin string) bool {
 			classes = append(classes, "receiver/closer")
 
 		case "closel":
-			conn := conns[sid]
-			rc := ref.conns[sid]
-			if conn == nil || rc == nil {
+			hd := pick(e, sid)
+			if hd == nil || hd.conn == nil {
 				continue
 			}
-			r.peer.setAuto(ackAll)
+			conn, rc := hd.conn, hd.rc
+			sid = hd.sid
+			redundant := !rc.open
+			reopen := e.Reopen && rc.open
+			opID := r.id("op")
+			logFrom := r.peer.logLen()
+			if reopen {
+				// the peer answers the close request, but first opens a new stream
+				// under the same session id: the handler registers it while Close is
+				// still waiting
+				st := `<iq type="set" id="` + opID + `" from="` + remoteAddr + `" to="` + r.s.LocalAddr().String() + `"><open xmlns="` + ibb.NS + `" block-size="` + strconv.Itoa(e.BS) + `" sid="` + sid + `"/></iq>`
+				csid := sid
+				r.peer.setAuto(func(w wstanza) string {
+					if w.Name == "iq" && w.Type == "set" && w.Child == "close" && w.SID == csid {
+						return st + resultFor(w)
+					}
+					return ackAll(w)
+				})
+			} else {
+				r.peer.setAuto(ackAll)
+			}
 			var err error
 			if !hx.WithTimeout(2*watchdog, func() { err = conn.Close() }) {
 				return abort("C15/close/hang", fmt.Sprintf("event %d: Close does not return although the peer answers", i))
 			}
+			r.peer.setAuto(ackAll)
 			if err != nil && !rc.werr {
 				// with a refused packet pending Close may report that error (it is
 				// the writer's next call), but it must still close the stream: the
 				// events that follow check that
 				fail("C15/close/error", fmt.Sprintf("event %d: Close fails: %v", i, err))
 			}
-			if rc.werr {
+			if rc.werr && !redundant {
 				classes = append(classes, "receiver/closel/after-refused-write")
 				// the peer must have been told
 				told := false
-				for _, l := range r.peer.snapshot() {
+				for _, l := range r.peer.snapshotFrom(logFrom) {
 					if l.Name == "iq" && l.Child == "close" && l.SID == sid {
 						told = true
 					}
 				}
-				if !told && rc.open {
+				if !told {
 					fail("C15/close/peer-not-told:stale-write-error", fmt.Sprintf("event %d: Close with a refused data packet pending returns (%v) without sending the close request: the peer keeps the stream open for ever", i, err))
 				}
 			}
+			if redundant {
+				classes = append(classes, "receiver/closel/redundant")
+				for _, l := range r.peer.snapshotFrom(logFrom) {
+					if l.Name == "iq" && l.Child == "close" {
+						fail("C15/close/redundant-close-sends-request", fmt.Sprintf("event %d: Close on a connection that is closed already sends a close request for %q", i, l.SID))
+					}
+				}
+			}
+			if reopen {
+				w, ok := r.peer.replyTo(opID, logFrom, watchdog)
+				if !ok || w.Type != "result" {
+					return abort("C15/open/listener-refused", fmt.Sprintf("event %d: an open request arriving while Close waits for its answer is not accepted", i))
+				}
+				select {
+				case nc := <-r.accepted:
+					newHandle(nc, sid, &refConn{bs: effBS(e.BS), max: ibb.MaxBufferSize, open: true, exists: true, iq: true})
+				case <-timeAfter(watchdog):
+					return abort("C15/open/accept-missing", "an accepted open request never reaches Accept")
+				}
+				evTerms = append(evTerms, fmt.Sprintf("EOpenRemote %s %s true", coqSid(sid), coqN(e.BS)))
+				obsTerms = append(obsTerms, "OReply RAck")
+				classes = append(classes, "receiver/closel/reopen-during-close")
+			}
 			rc.open = false
 			closes++
-			evTerms = append(evTerms, "ECloseLocal "+coqSid(sid))
+			evTerms = append(evTerms, "ECloseLocal "+hx.CoqNat(idOf(hd)))
 			obsTerms = append(obsTerms, "ONone")
 			classes = append(classes, "receiver/closel")
 		}
@@ -549,9 +630,9 @@ func (x *runner) runReceiver(c recvCase, origin string) bool {
 		return abort("C15/serve/aborted", "the serve loop ended: "+msg)
 	}
 	// leave nothing registered behind on a rig that is reused
-	for sid, rc := range ref.conns {
-		if rc.open && conns[sid] != nil {
-			conn := conns[sid]
+	for _, hd := range handles {
+		if hd.rc.open && hd.conn != nil {
+			conn := hd.conn
 			hx.WithTimeout(watchdog, func() { conn.Close() })
 		}
 	}
@@ -843,6 +924,90 @@ func genReceiver(r *hx.Rand) recvCase {
 			rc.buf = rc.buf[n:]
 		}
 		ev = append(ev, evJ{Op: "read", SID: sid, N: 4})
+	}
+	return recvCase{Events: ev}
+}
+
+// genReuse generates histories in which one session identifier is used for
+// several streams one after the other (and now and then at the same time):
+// open(x), transfer, close, open(x) again, redundant Close calls on the old
+// connections at every later point, transfer on the new one.
+func genReuse(r *hx.Rand) recvCase {
+	var ev []evJ
+	sid := "x"
+	nh, seq := 0, 0
+	isOpen := false
+	openNew := func() {
+		bs := []int{0, 1, 4, 8, 64}[r.Intn(5)]
+		if r.Bool() {
+			ev = append(ev, evJ{Op: "openl", SID: sid, BS: bs, Accept: true})
+		} else {
+			ev = append(ev, evJ{Op: "openr", SID: sid, BS: bs, Listening: true, Stanza: []string{"", "iq", "message"}[r.Intn(3)]})
+		}
+		nh++
+		seq, isOpen = 0, true
+	}
+	redundant := func() {
+		for h := 1; h < nh; h++ {
+			if r.Chance(1, 2) {
+				ev = append(ev, evJ{Op: "closel", SID: sid, H: h})
+			}
+		}
+	}
+	packet := func() {
+		ev = append(ev, evJ{Op: "data", SID: sid, IQ: r.Chance(2, 3), Seq: strconv.Itoa(seq), Data: hx.Hex(genData(r, 1+r.Intn(6)))})
+		if isOpen {
+			seq = (seq + 1) % 65536
+		}
+	}
+	gens := 2 + r.Intn(2)
+	for g := 0; g < gens; g++ {
+		if !isOpen || r.Chance(1, 6) { // now and then a second stream under the sid while the first is still open
+			openNew()
+		}
+		for k := 1 + r.Intn(3); k > 0; k-- {
+			redundant()
+			packet()
+			if r.Bool() {
+				ev = append(ev, evJ{Op: "read", SID: sid, H: nh, N: 1 + r.Intn(8)})
+			}
+			if r.Chance(1, 4) {
+				ev = append(ev, evJ{Op: "write", SID: sid, H: nh, Accept: r.Chance(3, 4)})
+			}
+		}
+		if g == gens-1 {
+			break
+		}
+		switch r.Intn(3) {
+		case 0:
+			ev = append(ev, evJ{Op: "closer", SID: sid})
+			isOpen = false
+		case 1:
+			ev = append(ev, evJ{Op: "closel", SID: sid, H: nh})
+			isOpen = false
+		default: // the peer reopens the sid while Close is waiting for its answer
+			ev = append(ev, evJ{Op: "closel", SID: sid, H: nh, Reopen: true, BS: 8})
+			nh++
+			seq, isOpen = 0, true
+		}
+		if r.Chance(1, 3) {
+			packet() // a packet between two generations: refused, or the first of the reopened stream
+		}
+	}
+	redundant()
+	packet()
+	ev = append(ev, evJ{Op: "read", SID: sid, H: nh, N: 64})
+	if r.Bool() {
+		ev = append(ev, evJ{Op: "closer", SID: sid})
+	} else {
+		ev = append(ev, evJ{Op: "closel", SID: sid, H: nh})
+	}
+	isOpen = false
+	packet()
+	redundant()
+	for h := 1; h <= nh; h++ {
+		ev = append(ev, evJ{Op: "closel", SID: sid, H: h})
+		ev = append(ev, evJ{Op: "read", SID: sid, H: h, N: 1000}, evJ{Op: "read", SID: sid, H: h, N: 4})
 	}
 	return recvCase{Events: ev}
 }
